@@ -109,4 +109,30 @@ template <class W> void wd_slice_use() { typename W::Top m; m.start(); m.process
 template void wd_slice_use<wd_base_defer<boost::msm::back::state_machine>>();
 template void wd_slice_use<wd_base_defer<boost::msm::back11::state_machine>>();
 template void wd_slice_use<wd_base_defer<boost::msm::backmp11::state_machine_adapter>>();
+// ---- deferring actions other than the plain Defer functor: a sequence containing Defer, a user functor marked deferring_action
+struct wd_sjob {}; struct wd_mjob {};
+struct wd_my_defer { typedef int deferring_action; template <class E, class F, class S, class T> void operator()(E const& e, F& f, S&, T&) { f.defer_event(e); } };
+template <template <typename...> class Back>
+struct wd_seq_defer
+{
+    struct Top_ : public msm::front::state_machine_def<Top_>
+    {
+        typedef int activate_deferred_events;
+        struct Waiting : wd_st {}; struct Working : wd_st {};
+        typedef Waiting initial_state;
+        struct transition_table : mpl::vector<
+            msm::front::Row<Waiting, wd_sjob, msm::front::none, msm::front::ActionSequence_<mpl::vector<msm::front::Defer, wd_act> >, msm::front::none>,
+            msm::front::Row<Waiting, wd_mjob, msm::front::none, wd_my_defer, msm::front::none>,
+            msm::front::Row<Waiting, wd_ready, Working, msm::front::none, msm::front::none>,
+            msm::front::Row<Working, wd_sjob, Waiting, wd_act, msm::front::none>,
+            msm::front::Row<Working, wd_mjob, Waiting, wd_act, msm::front::none>
+        > {};
+        template <class FSM, class Event> void no_transition(Event const&, FSM&, int) {}
+    };
+    typedef Back<Top_> Top;
+};
+template <class W> void wd_seq_use() { typename W::Top m; m.start(); m.process_event(wd_sjob()); m.process_event(wd_mjob()); m.process_event(wd_ready()); m.stop(); }
+template void wd_seq_use<wd_seq_defer<boost::msm::back::state_machine>>();
+template void wd_seq_use<wd_seq_defer<boost::msm::back11::state_machine>>();
+template void wd_seq_use<wd_seq_defer<boost::msm::backmp11::state_machine_adapter>>();
 }
